@@ -2,7 +2,10 @@
 // cmd/gentypes for every run) and the small static API the harness uses to walk it.
 package universe
 
-import "reflect"
+import (
+	"reflect"
+	"sync/atomic"
+)
 
 // UField is one tagged (schema) field of a struct, in field-id order.
 type UField struct {
@@ -21,8 +24,13 @@ type UStruct struct {
 	Group  string // which generator group produced it
 	// for evolution pairs: Sid of the writer schema this reader was derived from, else -1
 	Writer int
+	// InitDefault panics while Boom is set (user code that fails during a descriptor build)
+	Boom bool
 }
 
 var Structs []UStruct
+
+// Boom makes the InitDefault of the `boom` group's marked structs panic.
+var Boom atomic.Bool
 
 func BySid(sid int) *UStruct { return &Structs[sid] }
